@@ -28,7 +28,11 @@ if replay and pathlib.Path("/verif", replay).exists():
 res = {"seeded": name, "check": prop, "tier": tier, "exit_code": int(code), "detected": int(code) == 1,
        "seconds": int(secs), "violation_lines": [l for l in out.splitlines() if l.startswith("VIOLATION")][:5],
        "first_replay": rep}
-pathlib.Path(f"/verif/seeded/{name}/result_{prop}.json").write_text(json.dumps(res, indent=1, default=str)[:20000])
+text = json.dumps(res, indent=1, default=str)
+if len(text) > 20000:  # keep the file valid JSON: shorten the replay, not the string
+    res["first_replay"] = {"note": "replay too large to store here", "head": json.dumps(rep, default=str)[:4000]}
+    text = json.dumps(res, indent=1, default=str)
+pathlib.Path(f"/verif/seeded/{name}/result_{prop}.json").write_text(text)
 print("detected" if res["detected"] else f"NOT DETECTED (exit {code})")
 PY
 ./check $PROP --tier quick > /tmp/seeded_restore.out 2>&1 || { echo "WARNING: check on clean /repo did not exit 0 afterwards"; tail -3 /tmp/seeded_restore.out; }
